@@ -22,6 +22,7 @@ import DfolsVerif.Spec.RadiusSrc
 import DfolsVerif.Accept.IterAcc
 import DfolsVerif.Accept.DiagAcc
 import DfolsVerif.Proofs.DiagTable
+import DfolsVerif.Proofs.MainLoopPaths
 
 namespace Dfols
 namespace C18
@@ -357,6 +358,16 @@ theorem C18_diag_rectangular (ops : List DiagTable.Op) (hsf : DiagTable.savedFir
     ∃ s', DiagTable.run (DiagTable.init Gen.diagInitKeys) ops = some s' ∧ (∀ kv ∈ s'.cols, kv.2 = DiagTable.saves ops) ∧
       s'.cols.map (·.1) = Gen.diagInitKeys ∧ s'.its = List.range (DiagTable.saves ops) :=
   DiagTable.run_from_init Gen.diagInitKeys ops hsf hk
+
+/-! ### layer G: no iteration without progress, at the source -/
+
+/-- **no stall, for every path of the translated main loop**: every execution of the loop body that goes on to the next
+    iteration has called `evaluate_objective`, the growing routine or the regression routine (which evaluate), `reduce_rho`,
+    `soft_restart`, or has passed a `did_fix_geom` test that held (a geometry step was made).  This is the rule `IterAcc`
+    enforces on traces (`C18_no_stall`), here decided over ALL syntactic paths of the skeleton regenerated from solver.py. -/
+theorem C18_src_no_stall {tr : List String} {e : Skel.Ending} (hx : Skel.Exec Gen.mainLoop tr e) (he : e = .cont) :
+    ∃ a ∈ tr, MainLoopPaths.isProgress a = true :=
+  MainLoopPaths.prog_trace hx he
 
 end C18
 end Dfols
